@@ -234,8 +234,8 @@ pub fn runtime(thorough: bool) -> Report {
 // C20 bounded stand-in: the same detect/build logic on identical inputs in two fresh processes leaves byte-identical outputs
 pub fn twice(_thorough: bool) -> Report {
     let mut r = Report::new(
-        "each scenario run in TWO fresh child processes of the real libcnb_runtime (separate temp roots, hence different hash seeds, pids and times): detect pass+plan (also a plan with 3 alternatives of 5-8 provides and requires each); build with launch/store/all SBOM formats; build doing layer work (uncached layer with 24 environment entries over all scopes incl. three process types and all five behaviours, two SBOMs, 12 exec.d programs, a cached layer with 16 metadata keys); build returning a launch configuration with 4 processes, 8 labels and 3 slices: the normalised snapshots of <layers> and the plan file are compared byte for byte; non-trivial = scenarios that write through map-typed inputs",
-        "4 scenarios x 2 processes (x 3 repetitions)",
+        "each scenario run in TWO fresh child processes of the real libcnb_runtime (separate temp roots, hence different hash seeds, pids and times): detect pass+plan (also a plan with 3 alternatives of 5-8 provides and requires each); build with launch/store/all SBOM formats; build doing layer work (uncached layer with 24 environment entries over all scopes incl. three process types and all five behaviours, two SBOMs, 12 exec.d programs, a cached layer with 16 metadata keys); build returning a launch configuration with 4 processes, 8 labels and 3 slices; one with several process types flagged default; build reading and writing back the environment of a restored layer with seven process env dirs, one of them empty: the normalised snapshots of <layers> and the plan file are compared byte for byte; non-trivial = scenarios that write through map-typed inputs",
+        "7 scenarios x 2 processes (x 3 repetitions)",
     );
     let exe = std::env::current_exe().unwrap().parent().unwrap().join("rtbp");
     let scenarios: Vec<(&str, Vec<(&str, &str)>)> = vec![
@@ -244,6 +244,8 @@ pub fn twice(_thorough: bool) -> Report {
         ("build", vec![("VERIF_DO", "pass"), ("VERIF_PARTS", "launch,store,b0,b1,b2,l0,l1,l2,b0x")]),
         ("build", vec![("VERIF_DO", "pass"), ("VERIF_PARTS", "launch,store"), ("VERIF_LAYERS", "1")]),
         ("build", vec![("VERIF_DO", "pass"), ("VERIF_PARTS", "richlaunch,store,b1,l0")]),
+        ("build", vec![("VERIF_DO", "pass"), ("VERIF_PARTS", "richlaunch2,store")]),
+        ("build", vec![("VERIF_DO", "pass"), ("VERIF_PARTS", "launch"), ("VERIF_LAYERS", "2")]),
     ];
     for rep in 0..3 { for (exe_name, envs) in &scenarios {
         r.evaluations += 1; if envs.len() > 1 { r.nontrivial += 1; }
@@ -254,6 +256,13 @@ pub fn twice(_thorough: bool) -> Report {
             fs::write(root.join("bp/buildpack.toml"), DESCRIPTOR_OK).unwrap(); fs::write(root.join("bp-plan.toml"), PLAN_TEXT).unwrap();
             fs::write(root.join("platform/env/A"), "1").unwrap();
             symlink(&exe, root.join("bin").join(exe_name)).unwrap();
+            if envs.iter().any(|(k, v)| *k == "VERIF_LAYERS" && *v == "2") {
+                // a restored layer: six process env dirs with one file each, a seventh that is empty, one launch-wide file
+                fs::write(root.join("layers/delta.toml"), "[types]\nlaunch = true\ncache = true\n[metadata]\nk = \"v\"\n").unwrap();
+                fs::create_dir_all(root.join("layers/delta/env.launch/console")).unwrap();
+                fs::write(root.join("layers/delta/env.launch/LANG.default"), "C.UTF-8").unwrap();
+                for p in ["web", "worker", "release", "scheduler", "clock", "migrate"] { fs::create_dir_all(root.join("layers/delta/env.launch").join(p)).unwrap(); fs::write(root.join("layers/delta/env.launch").join(p).join(format!("P_{p}.override")), p).unwrap(); }
+            }
             let args: Vec<PathBuf> = if *exe_name == "build" { vec![root.join("layers"), root.join("platform"), root.join("bp-plan.toml")] } else { vec![root.join("platform"), root.join("plan-out.toml")] };
             let mut cmd = Command::new(root.join("bin").join(exe_name));
             cmd.args(&args).current_dir(root.join("app")).env_clear().env("CNB_BUILDPACK_DIR", root.join("bp"));
